@@ -495,6 +495,32 @@ fn normalizer_oracle(t: &GTree, start_path: &[usize], params: &[Params], sink: &
             (Res::Ok(x), Res::Ok(y)) => x == y,
             _ => a.kind() == b.kind(),
         };
+        // C16 under a normalizer: the token stream, concatenated, is the string
+        let toks: Res<String> = match guarded(|| {
+            xa.tokens(na[idx], p.token_params(&va), FullwidthNormalizer)
+                .map(|(_, _, t)| format!("{}{}", if t.space { " " } else { "" }, t.text))
+                .collect::<Vec<String>>()
+                .concat()
+        }) {
+            Some(v) => Res::Ok(v),
+            None => Res::Panic,
+        };
+        let only_tokens = Params { indent: None, decl: None, doctype: None, ..p.clone() };
+        let a_tok = res_of(guarded(|| xa.serialize_xml_string_with_normalizer(only_tokens.xml_params(&va), na[idx], FullwidthNormalizer)));
+        match (&toks, &a_tok) {
+            (Res::Ok(x), Res::Ok(y)) if x != y => {
+                sink.stat("oracle.fail.C16:tokens-differ-from-string-under-a-normalizer");
+                println!(
+                    "F\tC16\t{{\"signature\": \"C16:tokens-differ-from-string-under-a-normalizer\", \"what\": {}, \"replay\": {{\"suite\": \"ser\", \"tree\": {}, \"start\": {}, \"params\": {}}}}}",
+                    ser_oracle::json_str(&format!("tokens(.., FullwidthNormalizer) concatenate to {}, serialize_xml_string_with_normalizer gives {}", ser_oracle::short(x), ser_oracle::short(y))),
+                    ser_oracle::json_str(&tf.wire()),
+                    ser_oracle::json_str(&path_str(start_path)),
+                    ser_oracle::json_str(&only_tokens.wire())
+                );
+            }
+            (Res::Ok(_), Res::Ok(_)) => sink.stat("oracle.C16.tokens-equal-string-under-a-normalizer"),
+            _ => {}
+        }
         if same {
             sink.stat("oracle.C14.normalizer-equals-normalised-tree");
         } else {
